@@ -29,7 +29,7 @@ for p in props:
         na.append({"property_id": pid, "reason": PENDING.get(pid, "check not yet built in this phase (planned: DESIGN.md sections 5 and 9); not a claim that the technique cannot apply")})
 man = {
     "version": 1,
-    "setup_cmd": "cd /verif/coq && coq_makefile -f _CoqProject -o Makefile && timeout 3000 make -j16",
+    "setup_cmd": "cd /verif && harness/mkcoqproject.sh && cd coq && coq_makefile -f _CoqProject -o Makefile && (timeout 3000 make -k -j16 > /verif/coq/setup.log 2>&1; tail -3 /verif/coq/setup.log; true)",
     "hooks": {"guard": "DKPRO_CASSIS_VERIF",
               "enable": "no instrumentation hooks are used: checks import the working tree of /repo (VERIF_REPO, default /repo) through sys.path and drive its public API",
               "baseline_off_cmd": "cd /repo && /venv/bin/python -m pytest -q -p no:cacheprovider --timeout=900",
